@@ -82,6 +82,14 @@ CLAIMS = {
             "Decides the allocation-count parity clause (pair counts of both decoders agree per event class, also on failing inputs), that both decoders share the atom/path parsers and call the callback once per back-reference, that the two path walkers have identical loop control and direction, and that the length probe mirrors the list-stack decoder and reports the cursor. Not that both decoders build identical trees.",
             "Trusts rustc's MIR; the acceptance sets being equal rests on the shared parsers plus identical path-walk control, not on a value-level comparison.",
             "DESIGN.md 4/C18"),
+    "C19": ("undo-completeness rule (fields written by the mutators vs fields restored, at field/sub-field granularity, with audited inert caches), snapshot-before-mutation dominance, reader inventory for the salt, conjunction-shape rule for the sentinel length, stack-mirroring pairing",
+            "Decides: every piece of Serializer and TreeCache state mutated by add/update/push/pop is restored from the checkpoint or is an audited inert cache; both checkpoint types are fully consumed; the checkpoint precedes the first mutation; the salt and salted hashes are read only where entries are created; pairs holding the sentinel get length 0; the incremental loop mirrors the decoder's stack. Known finding: parent links written by update() are not undone (a concrete history decodes to a different tree). Not that the final bytes decode to the assembled tree in general.",
+            "Trusts rustc's MIR and the field-write recogniser; 'inert' is an audited judgement per field, stated in the rule.",
+            "DESIGN.md 4/C19"),
+    "C20": ("constant relation evaluated over extracted decoder caps and the magic bytes, switch-table extraction of the instruction numbering on both sides, sequence/set comparison of header validations between decoder and probe, origin tracking of allocation sizes, accept-condition normalisation of the varint range tests",
+            "Decides: the classic prefix decoder rejects the magic by its own caps; writer and reader agree on 0 / +1 / -1 / i+2 / -(j+2) and on the operand order of both cons opcodes, with bounds-checked tables; decoder and probe validate the same varints with the same calls and reject the same header values, the probe reports magic + cursor and bounds its skips; every allocation size is constant or bounded by max_atom_len; write_varint and the strict size function accept the same ranges over 7+7k bits. Not round-trip, nor totality beyond explicit sites.",
+            "Trusts rustc's MIR. The probe/decoder comparison identifies header quantities by local names with one alias (atom_len = length): a rename on one side is reported.",
+            "DESIGN.md 4/C20"),
     "C22": ("argument-sequence rule on every Sha256::update / blob-list hashing site, pop-order vs push-order rule for pair hashes, index-provenance rule for the precomputed table, dominance rule for the stream hasher's slice position, Python ast check",
             "Decides for all 11 Rust hashing sites and the Python hasher: prefix 01 + atom bytes or 02 + left + right, nothing else; the first hash argument of every pair hash is the left child's (by push/pop order or by name); the precomputed table is correct and indexed only by the value of an inline small integer; the stream hasher slices the body after consuming the prefix. Not SHA-256 itself.",
             "Trusts chia_sha2 and Python's hashlib; `intern` delegates to the object cache.",
